@@ -275,6 +275,19 @@ func returns(stmts []ast.Stmt) bool {
 	return false
 }
 
+func containsReturn(stmts []ast.Stmt) bool {
+	found := false
+	for _, s := range stmts {
+		ast.Inspect(s, func(n ast.Node) bool {
+			if _, ok := n.(*ast.ReturnStmt); ok {
+				found = true
+			}
+			return true
+		})
+	}
+	return found
+}
+
 // run executes a statement list symbolically; the result is the returned expression.
 func (c *peCtx) run(stmts []ast.Stmt, env peEnv) J {
 	for i, s := range stmts {
@@ -307,6 +320,11 @@ func (c *peCtx) run(stmts []ast.Stmt, env peEnv) J {
 			}
 			if returns(s.Body.List) {
 				return J{"k": "ite", "c": cd, "a": c.run(s.Body.List, inner.clone()), "b": c.run(rest, env)}
+			}
+			if containsReturn(s.Body.List) {
+				// the body returns on some paths only: continue with the rest on the others
+				seq := append(append([]ast.Stmt{}, s.Body.List...), rest...)
+				return J{"k": "ite", "c": cd, "a": c.run(seq, inner.clone()), "b": c.run(rest, env)}
 			}
 			// a body of plain assignments to existing Pos variables
 			body := inner.clone()
